@@ -76,8 +76,9 @@ Qed.
 Definition wm_appending (r : wm_raw) : Prop :=
   wm_offset r = wm_fpos r /\ wm_fend r = wm_fpos r /\ wm_fault r = false.
 
-Lemma wm_leb_refl_true : forall a, (a <=? a) = true.
-Proof. intro a. apply N.leb_refl. Qed.
+Ltac wm_proj :=
+  unfold wm_bk_fwrite, wm_disk_put, wm_set_hdr, wm_set_offset, wm_invalidate, wm_set_last_pl, wm_set_fpos, wm_bk_fseek, wm_hdr_set_tag;
+  cbn [wm_fend wm_fpos wm_offset wm_last_pl wm_hdr wm_fault wm_rlog wm_disk fst snd fm_tag wm_hdr_set_ppl fm_payload_length].
 
 Lemma wm_raw_wr_append_empty : forall r h,
   wm_appending r -> fm_payload_length h = 0 -> fm_tag h <> JLS_TAG_INVALID ->
@@ -88,20 +89,22 @@ Lemma wm_raw_wr_append_empty : forall r h,
   wm_fpos r' = wm_fpos r + fm_chunk_size 0 /\ wm_appending r' /\ wm_last_pl r' = 0.
 Proof.
   intros r h [Ho [He Hf]] Hpl Htag h1 r'.
+  destruct r as [fpos fend off hdr lpl disk log flt].
+  cbn [wm_offset wm_fpos wm_fend wm_fault] in Ho, He, Hf. subst off fend flt.
   subst h1 r'. unfold wm_raw_wr, wm_raw_wr_header.
-  rewrite He, wm_leb_refl_true, Ho, N.eqb_refl.
-  cbn [fst snd]. unfold wm_raw_wr_payload, wm_raw_rd_header.
-  assert (Hv : wm_hdr_valid (wm_set_hdr (wm_disk_put (wm_bk_fwrite r (fm_encode_chunk_header (wm_hdr_set_ppl h (wm_last_pl r))))
-                                                       (wm_fpos r) (wm_hdr_set_ppl h (wm_last_pl r))) (wm_hdr_set_ppl h (wm_last_pl r))) = true).
-  { unfold wm_hdr_valid. cbn. apply negb_true_iff. apply N.eqb_neq. exact Htag. }
-  rewrite Hv. cbn [wm_fault wm_set_hdr wm_disk_put wm_bk_fwrite]. rewrite Hf.
-  cbn [fm_payload_length wm_hdr_set_ppl]. rewrite Hpl. cbn [N.eqb].
-  cbn [wm_fend wm_fpos]. rewrite He.
-  assert (Hl : N.of_nat (length (fm_encode_chunk_header (wm_hdr_set_ppl h (wm_last_pl r)))) = 32).
+  cbn [wm_fend wm_fpos wm_offset wm_last_pl].
+  rewrite N.leb_refl, N.eqb_refl.
+  assert (Hl : N.of_nat (length (fm_encode_chunk_header (wm_hdr_set_ppl h lpl))) = 32).
   { rewrite fm_encode_chunk_header_length. reflexivity. }
-  rewrite Hl. rewrite N.max_r by lia. rewrite wm_leb_refl_true.
-  cbn. unfold fm_encode_chunk. cbn [fm_frame]. rewrite app_nil_r.
-  repeat split; try reflexivity; try assumption.
+  unfold wm_raw_wr_payload, wm_raw_rd_header, wm_hdr_valid.
+  wm_proj. rewrite Hl.
+  destruct (fm_tag h =? JLS_TAG_INVALID) eqn:Et; [apply N.eqb_eq in Et; congruence|].
+  cbn [negb]. rewrite Hpl. cbn [N.eqb].
+  rewrite N.max_r by lia. rewrite N.leb_refl.
+  wm_proj. unfold wm_appending. wm_proj.
+  unfold fm_encode_chunk. cbn [fm_frame]. rewrite app_nil_r.
+  unfold fm_chunk_size, fm_disk_len, SIZEOF_chunk_header. cbn [N.eqb].
+  repeat split; try reflexivity. lia.
 Qed.
 
 Lemma wm_raw_wr_append_nonempty : forall r h p,
@@ -116,32 +119,31 @@ Lemma wm_raw_wr_append_nonempty : forall r h p,
   wm_fpos r' = wm_fpos r + fm_chunk_size (N.of_nat (length p)) /\ wm_appending r' /\ wm_last_pl r' = N.of_nat (length p).
 Proof.
   intros r h p [Ho [He Hf]] Hpl Hne Htag h1 r' hb ft.
-  assert (Hlen0 : N.of_nat (length p) <> 0) by (destruct p; [congruence | cbn; lia]).
+  assert (Hlen0 : N.of_nat (length p) <> 0) by (destruct p; [congruence | cbn [length]; lia]).
+  destruct r as [fpos fend off hdr lpl disk log flt].
+  cbn [wm_offset wm_fpos wm_fend wm_fault] in Ho, He, Hf. subst off fend flt.
   subst h1 r' hb ft. unfold wm_raw_wr, wm_raw_wr_header.
-  rewrite He, wm_leb_refl_true, Ho, N.eqb_refl.
-  cbn [fst snd]. unfold wm_raw_wr_payload, wm_raw_rd_header.
-  set (h1 := wm_hdr_set_ppl h (wm_last_pl r)).
-  assert (Hv : wm_hdr_valid (wm_set_hdr (wm_disk_put (wm_bk_fwrite r (fm_encode_chunk_header h1)) (wm_fpos r) h1) h1) = true).
-  { unfold wm_hdr_valid. cbn. apply negb_true_iff. apply N.eqb_neq. exact Htag. }
-  rewrite Hv. cbn [wm_fault wm_set_hdr wm_disk_put wm_bk_fwrite]. rewrite Hf.
-  assert (Hpl1 : fm_payload_length h1 = N.of_nat (length p)) by (subst h1; cbn; exact Hpl).
-  rewrite Hpl1. destruct (N.of_nat (length p) =? 0) eqn:E0; [apply N.eqb_eq in E0; congruence|].
-  cbn [wm_hdr]. rewrite Hpl1. rewrite N.ltb_irrefl.
-  rewrite Nat2N.id, firstn_all.
+  cbn [wm_fend wm_fpos wm_offset wm_last_pl].
+  rewrite N.leb_refl, N.eqb_refl.
+  set (h1 := wm_hdr_set_ppl h lpl).
   assert (Hl : N.of_nat (length (fm_encode_chunk_header h1)) = 32).
   { rewrite fm_encode_chunk_header_length. reflexivity. }
   assert (Hft : N.of_nat (length (wm_footer (N.of_nat (length p)) (crc32c p))) = fm_pad_len (N.of_nat (length p)) + 4).
   { unfold wm_footer. rewrite app_length, repeat_length, Nat2N.inj_add, N2Nat.id. unfold fm_enc_u32. rewrite fm_enc_length. reflexivity. }
-  cbn [wm_fend wm_fpos wm_rlog wm_offset wm_last_pl wm_bk_fwrite wm_set_last_pl wm_invalidate wm_set_offset wm_set_hdr].
-  rewrite He, Hl, Hft.
-  rewrite !N.max_r by lia.
-  rewrite wm_leb_refl_true.
-  cbn [wm_fend wm_fpos wm_rlog wm_offset wm_last_pl wm_fault wm_set_last_pl wm_invalidate wm_set_offset wm_set_hdr].
+  assert (Hpl1 : fm_payload_length h1 = N.of_nat (length p)) by (subst h1; cbn [fm_payload_length wm_hdr_set_ppl]; exact Hpl).
+  assert (Htag1 : (fm_tag h1 =? JLS_TAG_INVALID) = false) by (subst h1; cbn [fm_tag wm_hdr_set_ppl]; apply N.eqb_neq; exact Htag).
+  unfold wm_raw_wr_payload, wm_raw_rd_header, wm_hdr_valid.
+  wm_proj. rewrite Hl, Htag1. cbn [negb]. rewrite Hpl1.
+  destruct (N.of_nat (length p) =? 0) eqn:E0; [apply N.eqb_eq in E0; congruence|].
+  rewrite N.ltb_irrefl. rewrite Nat2N.id, firstn_all.
+  wm_proj. rewrite Hft.
+  rewrite !N.max_r by lia. rewrite N.leb_refl.
+  wm_proj. unfold wm_appending. wm_proj.
   assert (Hsz : fm_chunk_size (N.of_nat (length p)) = 32 + N.of_nat (length p) + (fm_pad_len (N.of_nat (length p)) + 4)).
   { unfold fm_chunk_size, fm_disk_len. rewrite E0. unfold SIZEOF_chunk_header, RAW_CRC_SIZE. lia. }
-  repeat split; try reflexivity; try assumption.
-  - unfold fm_encode_chunk, fm_frame, wm_footer. destruct p; [congruence|]. reflexivity.
-  - rewrite Hsz. lia.
+  rewrite Hsz.
+  repeat split; try reflexivity; try lia.
+  unfold fm_encode_chunk, fm_frame, wm_footer. destruct p; [congruence|]. reflexivity.
 Qed.
 
 Lemma wm_raw_wr_append_aligned : forall r h p,
